@@ -47,6 +47,25 @@ CHECKS = {
    text="Lean theorems: C19_generate_no_runtime_fault (for every input, include tree, configuration and map order, generate never reaches Fault.runtime — every Go index/slice of the modelled code is a guarded operation in the model — under the hypothesis EngineShape: the engine prints balanced text and answers every query), C19_cleanUp_total (the group scanner findGroupBodyEnd/removeGroup and both flag loops stay in range on balanced text; proved via a left-to-right scanner bal with the escape state of utils.IsEscaped, scanClose_shape/scanClose_of_bal, removeGroup_balanced, and state-preservation lemmas for the four string passes), C19_escaped_paren_is_text (D04 witness). Termination: the model is total. "
         "Tie: token-level fuzz (directive fragments, metacharacters, escaped parentheses before ?i:, braces, quotes, control and non-ASCII bytes; stdin and include file) through Operator.Run and through the clean-up passes in real code and model — same result or same fault class; binary on stdin (no runtime error text, no timeout); EngineShape monitored on every Join result.",
    design="§7 C19", technique="Lean 4 proof (unreachability of runtime faults; invariant: balanced text) + token-level differential fuzzing"),
+ "C03": dict(
+   text="The model is a function of its inputs. Lean theorems remove the only source of run-to-run variation, map iteration order, site by site: C03_classification_unambiguous (for every line at most one of the seven directive recognisers matches, so the order in which parseLine tries the pattern map is irrelevant), C03_flags_order_free; the include-except site is modelled by its order-free result (C06), the definitions map by explicit order parameters (C07). "
+        "A go/ast extractor lists every `range` over a map in the modelled packages on each run and compares it with the list the model covers (a new site is a broken obligation). Tie/search: every program executed 10/40 times in one process (Go randomises every map iteration) and as fresh processes, byte-compared.",
+   design="§7 C03", technique="Lean 4 proof (disjointness of recognisers, order-freeness per map site) + source-derived site list + repeated execution"),
+ "C04": dict(
+   text="Lean theorems giving the exact text of every command word: C04_interleave (characters written by regexpChar with the evasion pattern between any two adjacent ones and nowhere else), C04_empty_config, C04_regexpChar, C04_marker (unescaped trailing @/~ → evasion + (no-space) suffix pattern, or nothing when that pattern is empty), C04_escaped_marker, C04_plain_word, C04_verbatim. That this text denotes c1·E·c2…cn[·E·S] needs the engine's concatenation law and is checked on the real engine. "
+        "Tie: CmdLine.regexpStr (real code, four configuration classes incl. absent file) vs the model; membership oracle: the word itself and 11 variants with evasion strings drawn from the configured pattern's syntax tree must match the generated regex; programs with cmdline blocks compared with the plain reading.",
+   design="§7 C04", technique="Lean 4 proof (shape of the produced text) + differential correspondence + membership oracle on the real engine"),
+ "C05": dict(
+   text="Lean theorems about the parser model: C05_plain_include (an include of a file of entries/comments/blank lines parses exactly like its lines typed in place, for every parser state and continuation; parseLines_plain), C05_scoped_affixes (prefixes/suffixes of an include become one local assemble block; none → no block), C05_no_leak (an include line changes only the text, not definitions/flags/prefixes/suffixes), C05_flags_rejected. Not proved: nested includes and includes carrying own definitions as a general inlining law (covered by the oracle). "
+        "Tie: parser.Parse (buffer, flags, prefixes, suffixes, variables) vs model; oracle: generate(program) = generate(program inlined and expanded by an independent naive reading), top level / assemble / cmdline, include and exclude directory, with/without .ra.",
+   design="§7 C05", technique="Lean 4 proof (inlining law for plain includes) + differential correspondence + inline-by-hand oracle"),
+ "C06": dict(
+   text="Lean theorems: C06_kept_iff (an entry is contributed iff it is in the include file and in no exclusion file), C06_kept_order (survivors form a duplicate-free subsequence of the file), C06_rewrite_first_match / C06_rewrite_unchanged / C06_rewrite_keeps_stem (an entry is rewritten by the first pair whose key it ends with — value `\"\"` deletes — and otherwise untouched; only endings change), C06_replaceSuffixes_lines + C06_skip_directives (comments, directives, blank lines never touched), C06_pairs_odd_rejected. "
+        "Tie: parser.Parse and replaceSuffixes/buildPairMap alone vs model; oracle: generate vs the program with the set difference / rewrite done by hand.",
+   design="§7 C06", technique="Lean 4 proof (set-difference and first-match laws) + differential correspondence + by-hand oracle"),
+ "C07": dict(
+   text="PARTIAL. Lean theorems: C07_definition_no_entry, C07_first_definition_wins, C07_unreferenced_unchanged (text without references to defined names is untouched, any order), C07_single_definition (one definition = ReplaceAll), C07_closeVars_flat (definitions that mention no defined name are unchanged by the first loop, any order). NOT proved: order independence of the first loop for nested definitions (closure for every visiting order) and of the second loop in general; this needs the token-level 'no computed names' argument of DESIGN §7 and is covered by the correspondence (Go's own random map order vs the model's definition order) and by the permutation oracle (all permutations of ≤4 definition lines, sampled beyond) on the implementation. ",
+   design="§7 C07", technique="Lean 4 proof (partial: flat definitions) + differential correspondence against Go's random map order + permutation oracle"),
 }
 
 NOT_YET = "check not built yet (work in progress in this round; planned per DESIGN.md §7)"
